@@ -34,6 +34,18 @@ Theorem kernel_inputs_are_the_documented_columns :
 Proof. reflexivity. Qed.
 Print Assumptions kernel_inputs_are_the_documented_columns.
 
+(* where the ambient temperature column TEXT comes from (generated from the component models): the pipe's own
+   text_k, and for pipes without text_k and for all other branches the resolved pipeflow option ambient_temperature
+   (get_net_option: call > user_pf_options > default, C14) - no other source *)
+Theorem ambient_column_is_text_k_or_the_resolved_option :
+  text_column_sources =
+  [("branch_models.py", "branch_component_pit[:, TEXT]", "get_net_option(net, 'ambient_temperature')");
+   ("branch_wo_internals_models.py", "branch_wo_internals_pit[:, TEXT]", "get_net_option(net, 'ambient_temperature')");
+   ("pipe_component.py", "pipe_pit[nan_mask, TEXT]", "get_net_option(net, 'ambient_temperature')");
+   ("pipe_component.py", "set_entry_check_repeat(TEXT)", "net[tbl].text_k.values")]%string.
+Proof. reflexivity. Qed.
+Print Assumptions ambient_column_is_text_k_or_the_resolved_option.
+
 (* ---- 1. cooling law: generated branch residual = 0  <->  outlet temperature on the documented law
         (argument order as pinned above: amb ALPHA DO LENGTH MDOTINIT QEXT TEXT TL cp_b cp_n ...; d_o = column DO) *)
 Theorem branch_cooling_law_numpy : forall amb al d_o L m Q Text TL cpb cpn nf ti ti1 tn tnt,
